@@ -25,12 +25,13 @@
 (*              left to do, a task is parked although the kernel reports its fd ready / runnable but not run), *)
 (*              never_quiescent (60 further dispatches and each of them still had an event to process)       *)
 (*   Blocking   nonblock_not_set_while_adapted, blocking_mode_not_restored                                    *)
-(*   Released   fd_left_in_poller, adapter_not_registered, registration_not_oneshot, foreign_epoll_entry,     *)
-(*              slot_leaked                                                                                   *)
-(* Not a clause of C17, only counted (p = C17_note): stale_readiness -- readable()/writable() resolved from a       *)
-(* last_readiness recorded earlier (poll_read/poll_write do not consume it) although the fd is not ready now.     *)
-(* When several tasks share one adapter (topologies split / join) the NeverStuck and Woken clauses carry the   *)
-(* suffix _shared_adapter: that use is outside what one &mut borrow at a time allows; see ASYNCIO_FINDINGS.md.*)
+(*   Released   fd_left_in_poller, adapter_not_registered (a live adapter without its entry in the kernel's  *)
+(*              table -- also when somebody else deleted it), registration_not_oneshot, foreign_epoll_entry, *)
+(*              slot_leaked, failed_adapt_disturbed_live_adapter (an adapt_io of an fd that already has a    *)
+(*              live adapter -- EEXIST -- changed that adapter's entry, the slot count or O_NONBLOCK)         *)
+(* Not a clause of C17, only counted (p = C17_note): stale_readiness -- readable()/writable() resolved from a  *)
+(* last_readiness recorded earlier (poll_read/poll_write do not consume it) although the fd is not ready now. *)
+(* The clauses apply to every topology, also to two futures on ONE adapter (split / join; fixed by 0061559).  *)
 (*                                                                                                           *)
 (* All scenarios of one trace file have the same topology: the constants Tasks, AdOf, Join, B, LowWater are    *)
 (* read from the first `reset` event.                                                                         *)
@@ -51,8 +52,6 @@ TrJoin   == Rec[1].join = 1
 TrB      == Rec[1].cap
 TrLow    == Rec[1].lw
 TrAdapted == ToSet(Rec[1].adapted)
-Shared   == \E t1, t2 \in TrTasks : t1 # t2 /\ TrAdOf[t1] = TrAdOf[t2]
-Sfx(c)   == IF Shared THEN c \o "_shared_adapter" ELSE c
 
 SameTopology(ev) ==
   /\ ev.tasks = Rec[1].tasks /\ ev.join = Rec[1].join /\ ev.cap = Rec[1].cap /\ ev.lw = Rec[1].lw
@@ -111,10 +110,10 @@ TsClauses(s, ev) ==
 ObsClauses(s0, s, ev) == EpClauses(s, ev) \cup NbClauses(s, ev) \cup OccClauses(s0, s, ev) \cup TsClauses(s, ev)
 
 \* NeverStuck / Woken on the shadow state (which follows the observations)
-StuckClauses(s) == IF StuckTasks(s) # {} THEN {Sfx("task_stuck")} ELSE {}
+StuckClauses(s) == IF StuckTasks(s) # {} THEN {"task_stuck"} ELSE {}
 QuiescentClauses(s) ==
-  (IF \E t \in Tasks : s.ts[t] = "parked" /\ KReady(s, AdOf[t], s.wait[t]) THEN {Sfx("task_never_woken")} ELSE {})
-  \cup (IF \E t \in Tasks : s.ts[t] = "runnable" THEN {Sfx("task_never_run")} ELSE {})
+  (IF \E t \in Tasks : s.ts[t] = "parked" /\ KReady(s, AdOf[t], s.wait[t]) THEN {"task_never_woken"} ELSE {})
+  \cup (IF \E t \in Tasks : s.ts[t] = "runnable" THEN {"task_never_run"} ELSE {})
 
 Without(q, x) ==
   IF \E i \in DOMAIN q : q[i] = x
@@ -135,6 +134,20 @@ StepAdapt(s0, ev, ln) ==
               \cup ObsClauses(s0, pred, ev)
       es   == IF ev.nbb # -1 /\ (ev.nbb = 1) # pre.nb[f] THEN {"Env_nonblock_before"} ELSE {}
   IN Add([s0 EXCEPT !.st = pred], ln, cs, es)
+
+\* adapt_io of an fd whose adapter is alive: must fail and change nothing
+StepAdaptAgain(s0, ev, ln) ==
+  LET pre == s0.st  f == ev.f IN
+  IF ev.r = "misuse" \/ pre.pc # "idle" \/ f \notin Ends \/ ~pre.ad[f].live THEN Outside(s0, ev, ln)
+  ELSE
+  LET pred == DoAdaptAgain(pre, f)
+      oc   == ObsClauses(s0, pred, ev)
+      cs   == (IF ev.r # "err" THEN {"Mismatch_adapt_result"} ELSE {})
+              \cup (IF ev.r = "panic" THEN {"panic"} ELSE {})
+              \cup oc
+              \cup (IF ~EpMatches(ev.ep[f], pre.ep[f]) \/ ev.occ # s0.occ0 + pre.occ \/ ev.nb[f] # 1
+                    THEN {"failed_adapt_disturbed_live_adapter"} ELSE {})
+  IN Add([s0 EXCEPT !.st = pred], ln, cs, IF ev.r = "err" /\ ev.errno # 17 THEN {"Env_adapt_errno"} ELSE {})
 
 StepDrop(s0, ev, ln) ==
   LET pre == s0.st  f == ev.f IN
@@ -198,8 +211,11 @@ StepIoEv(s0, ev, ln) ==
       cs   == (IF Head(pre0.batch) # a THEN {"Mismatch_batch_order"} ELSE {})
               \cup (IF (ev.found = 1) # pre.ad[a].live THEN {"Mismatch_lookup"} ELSE {})
               \cup (IF wsO # wsP THEN {"Mismatch_wake"} ELSE {})
-              \cup (IF lost # {} THEN {Sfx("task_not_woken_on_event")} ELSE {})
-              \cup (IF ev.found = 1 /\ ~EpMatches(ev.ep, pred.ep[a]) THEN {"Mismatch_epoll"} ELSE {})
+              \cup (IF lost # {} THEN {"task_not_woken_on_event"} ELSE {})
+              \* the driver reads the kernel's entry when process_events has returned and BEFORE the loop applies its
+              \* PostAction::Reregister: process_events itself does not touch the poller, the renewed registration is
+              \* compared at the end of the dispatch (dispd) and at the next poll of a task on this adapter
+              \cup (IF ev.found = 1 /\ ~EpMatches(ev.ep, pre.ep[a]) THEN {"Mismatch_epoll"} ELSE {})
   IN Add([s0 EXCEPT !.st = pred], ln, cs, {})
 
 StepExecBegin(s0, ev, ln) ==
@@ -235,7 +251,7 @@ StepPoll(s0, ev, ln) ==
               \cup (IF ev.r = "panic" THEN {"panic"} ELSE {})
               \cup (IF ~io /\ kO # kP THEN {"Mismatch_readiness_result"} ELSE {})
               \cup (IF bad THEN {"bytes_differ"} ELSE {})
-              \cup (IF kO = -1 /\ ~armedOk THEN {Sfx("parked_not_armed")} ELSE {})
+              \cup (IF kO = -1 /\ ~armedOk THEN {"parked_not_armed"} ELSE {})
               \cup (IF ~EpMatches(o, s2.ep[a]) THEN {"Mismatch_epoll"} ELSE {})
       es   == IF io /\ kO # kP THEN {"Env_io_result"} ELSE {}
       \* readable()/writable() resolved from a readiness recorded earlier although the kernel does not report the fd ready now
@@ -274,7 +290,7 @@ StepEnd(s0, ev, ln) ==
               : e \in Ends}
             \cup ObsClauses(s0, s, ev)
             \cup StuckClauses(s)
-            \cup (IF Quiescent(s) THEN QuiescentClauses(s) ELSE {Sfx("never_quiescent")})
+            \cup (IF Quiescent(s) THEN QuiescentClauses(s) ELSE {"never_quiescent"})
   IN Add(s0, ln, cs, {})
 
 Step(s0, ev, ln) ==
@@ -285,6 +301,7 @@ Step(s0, ev, ln) ==
        ELSE [Empty EXCEPT !.scn = ev.id, !.nscn = s0.nscn + 1, !.misuse = s0.misuse + 1, !.viol = s0.viol, !.bad = TRUE]
   ELSE IF s0.bad THEN s0          \* after a step outside the protocol the rest of the scenario is not judged
   ELSE CASE ev.e = "adapt"      -> StepAdapt(s0, ev, ln)
+         [] ev.e = "adapt2"     -> StepAdaptAgain(s0, ev, ln)
          [] ev.e = "drop"       -> StepDrop(s0, ev, ln)
          [] ev.e = "spawn"      -> StepSpawn(s0, ev, ln)
          [] ev.e = "peer"       -> StepPeer(s0, ev, ln)
